@@ -1,4 +1,4 @@
-import IstioModel.C15.PodCache
+import IstioModel.C15.Waiting
 
 /-!
 # C15 - property theorems
@@ -68,19 +68,55 @@ def staleStep (c : Ctl) (st : StaleSet) : Op → StaleSet
   | .delSlice ns name => st.filter (fun k => k ≠ (ns, name))
   | _ => st
 
+/-! ## slices that wait for the IP of their pod -/
+
+/-- exempt from the invariant for the time being: stale (a pod it shows was deleted) or waiting (a pod it refers to
+    arrived without IP) -/
+def Exempt (st : StaleSet) (wp : WaitSet) (x : Slice) : Prop := StaleP st x ∨ WaitP wp x
+
+instance (st : StaleSet) (x : Slice) : Decidable (StaleP st x) := by unfold StaleP; exact inferInstance
+
+instance (st : StaleSet) (wp : WaitSet) (x : Slice) : Decidable (Exempt st wp x) := by unfold Exempt; exact inferInstance
+
+instance (sl : Slice) : Decidable (Servable sl) := by unfold Servable; exact inferInstance
+
+/-- bookkeeping of the waiting pairs: a NEW pod without IP (Pending - the usual first event of a pod) makes the
+    slices that already refer to it wait (they were parked in `needResync` under the endpoint address and this
+    event does not replay them); a Pod event with an IP clears the pairs whose endpoint has that address (the
+    slice is replayed); writing or deleting a slice clears its pairs -/
+def waitStep (c : Ctl) (st : StaleSet) (wp : WaitSet) : Op → WaitSet
+  | .pod v =>
+    if v.phase = "F" then wp else
+    match findPod c.pods v.ns v.name with
+    | none =>
+      if v.ip = "" then
+        wp ++ (c.slices.filter (fun x => decide (¬ Exempt st wp x ∧ Servable x ∧ Refs x v.ns v.name))).map
+          (fun x => ((x.ns, x.name), (v.ns, v.name)))
+      else clearAt c wp v.ip
+    | some _ => clearAt c wp v.ip
+  | .slice v => wp.filter (fun e => e.1 ≠ (v.ns, v.name))
+  | .delSlice ns name => wp.filter (fun e => e.1 ≠ (ns, name))
+  | _ => wp
+
 /-! ## good steps -/
 
-/-- a label edit does not reach a stale slice: no stale slice belongs to a Service that
+/-- a label edit does not reach an exempt slice: no such slice belongs to a Service that
     `recomputeServiceForPod` visits for the new labels -/
-def LabelFree (c : Ctl) (st : StaleSet) (v : Pod) : Prop :=
-  ∀ x ∈ c.slices, StaleP st x → ∀ sv ∈ c.svcs, sv.ns = v.ns → selMatch sv.sel v.labels = true →
+def LabelFree (c : Ctl) (P : Slice → Prop) (v : Pod) : Prop :=
+  ∀ x ∈ c.slices, P x → ∀ sv ∈ c.svcs, sv.ns = v.ns → selMatch sv.sel v.labels = true →
     ¬ (x.ns = sv.ns ∧ x.svc = sv.name)
 
+/-- the node change leaves the locality of every pod that a slice (not exempt) refers to as it was: Node events
+    refresh nothing (finding `locality-built-before-node-change`) -/
+def LocalityKept (c : Ctl) (P : Slice → Prop) (nodes' : List Node) : Prop :=
+  ∀ sl ∈ c.slices, Servable sl → ¬ P sl → ∀ ea ∈ sl.addrPairs, ∀ tns tn, ea.1.target = some (tns, tn) →
+    ∀ p, findPod c.pods tns tn = some p → localityOf nodes' p = localityOf c.nodes p
+
 /-- The side conditions under which the controller repairs its caches after one write (the state
-    `c` is the controller before the write, `st` the slices currently stale).  Every clause is a
-    decidable statement about the objects seen so far and the written object (`SvcIrrelevant` reads the
-    pod cache, which is a function of the pods by `PodCacheOK`). -/
-def GoodStep (c : Ctl) (st : StaleSet) : Op → Prop
+    `c` is the controller before the write, `st` the slices currently stale, `wp` the waiting pairs).  Every
+    clause is a decidable statement about the objects seen so far and the written object (`SvcIrrelevant` and
+    `NoRecompute` read the pod cache, which is a function of the pods by `PodCacheOK`). -/
+def GoodStep (c : Ctl) (st : StaleSet) (wp : WaitSet) : Op → Prop
   | .slice v =>
       WF { c with slices := upsertBy (fun x => x.ns = v.ns ∧ x.name = v.name) v c.slices } ∧
       (∀ o ∈ c.slices, o.ns = v.ns → o.name = v.name → o.svc = v.svc ∧ o.fqdn = v.fqdn) ∧
@@ -97,26 +133,29 @@ def GoodStep (c : Ctl) (st : StaleSet) : Op → Prop
         WF { c with pods := upsertBy (fun x => x.ns = v.ns ∧ x.name = v.name) v c.pods } ∧
         PodKeysOK (upsertBy (fun x => x.ns = v.ns ∧ x.name = v.name) v c.pods) ∧
         NoPodAtUntargeted { c with pods := upsertBy (fun x => x.ns = v.ns ∧ x.name = v.name) v c.pods } ∧
-        (PodGood c v ∨ (PodLabelGood c v ∧ LabelFree c st v)))
+        NoIPLoss c v ∧
+        (PodGood c (Exempt st wp) v ∨ (PodLabelGood c v ∧ LabelFree c (Exempt st wp) v)))
   | .delPod _ _ => WF c ∧ PodKeysOK c.pods ∧ NoPodAtUntargeted c
   | .node v =>
-      NoPodAtUntargeted c ∧ ∀ p ∈ c.pods, localityOf (upsertBy (fun x => x.name = v.name) v c.nodes) p = localityOf c.nodes p
+      NoPodAtUntargeted c ∧ LocalityKept c (Exempt st wp) (upsertBy (fun x => x.name = v.name) v c.nodes)
   | .delNode name =>
-      NoPodAtUntargeted c ∧ ∀ p ∈ c.pods, localityOf (c.nodes.filter (·.name ≠ name)) p = localityOf c.nodes p
-  | .ns v => ∀ sv ∈ c.svcs, sv.ns ≠ v.name
-  | .delNs name => ∀ sv ∈ c.svcs, sv.ns ≠ name
+      NoPodAtUntargeted c ∧ LocalityKept c (Exempt st wp) (c.nodes.filter (·.name ≠ name))
+  | .ns v => (∀ sv ∈ c.svcs, sv.ns ≠ v.name) ∨ NsQuiet c v
+  | .delNs name => (∀ sv ∈ c.svcs, sv.ns ≠ name) ∨ ∀ o, c.nss.find? (fun n => n.name = name) = some o → o.td = false
   | .hold => False
   | .release => True
 
-/-- what is established after every write: the caches are the handler-function of the stores (stale
-    slices exempt), the pod cache is the function of the pods, `needResync` holds only what waits -/
-structure Stable (c : Ctl) (st : StaleSet) : Prop where
-  inv : InvExcept c (StaleP st)
+/-- what is established after every write: the caches are the handler-function of the stores (stale and waiting
+    slices exempt), the pod cache is the function of the pods, `needResync` holds only what waits, and every
+    waiting pair is registered in it -/
+structure Stable (c : Ctl) (st : StaleSet) (wp : WaitSet) : Prop where
+  inv : InvExcept c (Exempt st wp)
   pc : PodCacheOK c
   sound : ResyncSound c
+  reg : RegOK c wp
 
-theorem stable_empty : Stable ({} : Ctl) [] := by
-  refine ⟨inv_empty.mono (fun _ _ h => absurd h (fun h => h)), ⟨?_, ?_⟩, ?_⟩
+theorem stable_empty : Stable ({} : Ctl) [] [] := by
+  refine ⟨inv_empty.mono (fun _ _ h => absurd h (fun h => h)), ⟨?_, ?_⟩, ?_, ?_⟩
   · intro ip key
     constructor
     · intro h; simp [setContains, alookup] at h
@@ -127,6 +166,7 @@ theorem stable_empty : Stable ({} : Ctl) [] := by
     · intro h; simp [setContains, alookup] at h
   · intro a k h
     simp [setContains, alookup] at h
+  · intro x hx; cases hx
 
 theorem mem_refsOf (c : Ctl) (ns name : String) (x : Slice) (hx : x ∈ c.slices) (h : Refs x ns name) :
     StaleP (refsOf c ns name) x := by
@@ -143,81 +183,186 @@ theorem noPodAt_removed (c c' : Ctl) (ns name : String) (hu : NoPodAtUntargeted 
   exact hu sl hsl ea hea htg p (List.mem_filter.mp hp).1
 
 /-- a pod leaves the store: everything is kept, the slices that refer to it become stale -/
-theorem pod_removed_stable (c : Ctl) (st : StaleSet) (ns name : String) (evp o : Pod)
+theorem pod_removed_stable (c : Ctl) (st : StaleSet) (wp : WaitSet) (ns name : String) (evp o : Pod)
     (hfo : findPod c.pods ns name = some o) (hevp : evp.ns = ns ∧ evp.name = name)
-    (hs : Stable c st) (hwf : WF c) (hk : PodKeysOK c.pods) (hu : NoPodAtUntargeted c)
+    (hs : Stable c st wp) (hwf : WF c) (hk : PodKeysOK c.pods) (hu : NoPodAtUntargeted c)
     (hip : o.ip = "" ∨ evp.ip = "" ∨ evp.ip = o.ip) :
     Stable (runAll { c with pods := c.pods.filter (fun x => !(x.ns = ns ∧ x.name = name)) } [.podDel evp])
-      (st ++ refsOf c ns name) := by
+      (st ++ refsOf c ns name) wp := by
   have hst := runAll_one_st { c with pods := c.pods.filter (fun x => !(x.ns = ns ∧ x.name = name)) } (.podDel evp)
   have hpc' := pod_removed_podCache c ns name evp o hfo hevp hs.pc hk hip
   have hnc := noCachedAddr_of_objects c hs.pc hu
   have hnc' := noCachedAddr_of_objects _ hpc' (noPodAt_removed c _ ns name hu hst)
-  refine ⟨?_, hpc', pod_removed_sound c ns name evp hs.sound hwf⟩
-  apply (pod_removed_inv c ns name evp hs.inv hwf hnc hnc').mono
-  intro x hx hp
-  rw [hst.2] at hx
-  unfold StaleP
-  rw [List.mem_append]
-  cases hp with
-  | inl h => exact Or.inl h
-  | inr h => exact Or.inr (mem_refsOf c ns name x hx h)
+  refine ⟨?_, hpc', pod_removed_sound c ns name evp hs.sound hwf, ?_⟩
+  · apply (pod_removed_inv c ns name evp hs.inv hwf hnc hnc').mono
+    intro x hx hp
+    rw [hst.2] at hx
+    unfold Exempt StaleP
+    rw [List.mem_append]
+    cases hp with
+    | inl h =>
+      cases h with
+      | inl h => exact Or.inl (Or.inl h)
+      | inr h => exact Or.inr h
+    | inr h => exact Or.inl (Or.inr (mem_refsOf c ns name x hx h))
+  · intro x hx pn hp ea hea htg
+    rw [hst.2] at hx
+    rw [pod_removed_resync]
+    exact hs.reg x hx pn hp ea hea htg
+
+/-- a slice that waited still waits after a Pod event with IP `ip`, or was registered under `ip` (and is replayed) -/
+theorem waitP_clearAt (c : Ctl) (wp : WaitSet) (ip : String) (hwf : WF c) (hreg : RegOK c wp) (x : Slice)
+    (hx : x ∈ c.slices) (hw : WaitP wp x) :
+    WaitP (clearAt c wp ip) x ∨ (ip ≠ "" ∧ setContains c.resync ip x.key = true) := by
+  unfold clearAt
+  by_cases hip : ip = ""
+  · rw [if_pos hip]; exact Or.inl hw
+  · rw [if_neg hip]
+    unfold WaitP at hw ⊢
+    obtain ⟨e, he, hex⟩ := List.mem_map.mp hw
+    by_cases hh : HitBy c ip e
+    · right
+      refine ⟨hip, ?_⟩
+      obtain ⟨x', hx', hid, ea, hea, htg, hea2⟩ := hh
+      have hid' : (x'.ns, x'.name) = (x.ns, x.name) := hid.trans hex
+      simp only [Prod.mk.injEq] at hid'
+      have : x' = x := hwf.sliceNameInj x' hx' x hx hid'.1 hid'.2
+      subst this
+      rw [← hea2]
+      apply hreg x' hx' e.2 _ ea hea htg
+      rw [← hex]
+      exact he
+    · left
+      rw [List.mem_map]
+      exact ⟨e, List.mem_filter.mpr ⟨he, by simpa using hh⟩, hex⟩
+
+theorem mem_clearAt (c : Ctl) (wp : WaitSet) (ip : String) (e : (String × String) × (String × String))
+    (h : e ∈ clearAt c wp ip) : e ∈ wp ∧ (ip = "" ∨ ¬ HitBy c ip e) := by
+  unfold clearAt at h
+  by_cases hip : ip = ""
+  · rw [if_pos hip] at h; exact ⟨h, Or.inl hip⟩
+  · rw [if_neg hip] at h
+    have := List.mem_filter.mp h
+    exact ⟨this.1, Or.inr (by simpa using this.2)⟩
 
 /-- **handlers_preserve_inv.**  One write, handled to quiescence (the informer event against the
     updated store, then every replay it queued), takes a controller whose caches are a function of
     its stores to a controller whose caches are that function of the new stores. -/
-theorem handlers_preserve_inv (c : Ctl) (st : StaleSet) (op : Op) (c' : Ctl)
-    (hs : Stable c st) (hgood : GoodStep c st op) (hstep : stepC c op = some c') :
-    Stable c' (staleStep c st op) := by
+theorem handlers_preserve_inv (c : Ctl) (st : StaleSet) (wp : WaitSet) (op : Op) (c' : Ctl)
+    (hs : Stable c st wp) (hgood : GoodStep c st wp op) (hstep : stepC c op = some c') :
+    Stable c' (staleStep c st op) (waitStep c st wp op) := by
   have hpcO : (∀ v, op ≠ .pod v) → (∀ ns name, op ≠ .delPod ns name) → PodCacheOK c' := by
     intro h1 h2
     have := step_other_pc c op c' hstep h1 h2
     exact hs.pc.of_eq this.1 this.2.1 this.2.2
+  -- a write that touches neither the slices nor `needResync`
+  have hquiet : c'.resync = c.resync → c'.slices = c.slices → RegOK c' wp := by
+    intro h1 h2 x hx pn hp ea hea htg
+    rw [h2] at hx
+    rw [h1]
+    exact hs.reg x hx pn hp ea hea htg
   cases op with
   | slice v =>
-    refine ⟨?_, hpcO (by simp) (by simp), slice_write_sound c v c' hstep hs.sound hgood.2.2.1 hgood.1
-      (fun o ho h1 h2 => (hgood.2.1 o ho h1 h2).1) hgood.2.2.2⟩
-    apply (slice_write_inv c v c' hstep hs.inv hgood.1 hgood.2.1).mono
-    intro x hx hp
-    simp only [staleStep, StaleP]
-    rw [List.mem_filter]
-    refine ⟨hp.1, ?_⟩
-    simp only [ne_eq, decide_not, Bool.not_eq_true', decide_eq_false_iff_not, Prod.mk.injEq]
-    intro hn
-    apply hp.2
-    simp only [stepC, Option.some.injEq] at hstep
     have hsl : c'.slices = upsertBy (fun x => x.ns = v.ns ∧ x.name = v.name) v c.slices := by
+      simp only [stepC, Option.some.injEq] at hstep
       rw [← hstep]
       exact (runAll_one_st _ _).2
-    rw [hsl] at hx
-    exact hgood.1.sliceNameInj x hx v (mem_upsertBy_self _ v c.slices) hn.1 hn.2
+    have hne : ∀ x ∈ c'.slices, x ≠ v → (x.ns, x.name) ≠ (v.ns, v.name) := by
+      intro x hx hxv hn
+      simp only [Prod.mk.injEq] at hn
+      rw [hsl] at hx
+      exact hxv (hgood.1.sliceNameInj x hx v (mem_upsertBy_self _ v c.slices) hn.1 hn.2)
+    refine ⟨?_, hpcO (by simp) (by simp), slice_write_sound c v c' hstep hs.sound hgood.2.2.1 hgood.1
+      (fun o ho h1 h2 => (hgood.2.1 o ho h1 h2).1) hgood.2.2.2, ?_⟩
+    · apply (slice_write_inv c v c' hstep hs.inv hgood.1 hgood.2.1).mono
+      intro x hx hp
+      have hid := hne x hx hp.2
+      simp only [staleStep, waitStep, Exempt, StaleP, WaitP]
+      cases hp.1 with
+      | inl h =>
+        left
+        rw [List.mem_filter]
+        exact ⟨h, decide_eq_true hid⟩
+      | inr h =>
+        right
+        unfold WaitP at h
+        obtain ⟨e, he, hex⟩ := List.mem_map.mp h
+        rw [List.mem_map]
+        exact ⟨e, List.mem_filter.mpr ⟨he, decide_eq_true (by rw [hex]; exact hid)⟩, hex⟩
+    · intro x hx pn hp ea hea htg
+      simp only [waitStep] at hp
+      have hp' := List.mem_filter.mp hp
+      have hid : (x.ns, x.name) ≠ (v.ns, v.name) := of_decide_eq_true hp'.2
+      have hxv : x ≠ v := by intro h; rw [h] at hid; exact hid rfl
+      have hxc : x ∈ c.slices := by
+        rw [hsl] at hx
+        cases mem_upsertBy _ v x c.slices hx with
+        | inl h => exact absurd h hxv
+        | inr h => exact h
+      have hkey : x.key ≠ v.key := by
+        intro hk
+        rw [hsl] at hx
+        exact hxv (hgood.1.sliceKeyInj x hx v (mem_upsertBy_self _ v c.slices) hk)
+      rw [slice_write_sameBut c v c' hstep ea.2 x.key hkey]
+      exact hs.reg x hxc pn hp'.1 ea hea htg
   | delSlice ns name =>
-    refine ⟨?_, hpcO (by simp) (by simp), slice_delete_sound c ns name c' hstep hs.sound hgood⟩
-    apply (slice_delete_inv c ns name c' hstep hs.inv hgood).mono
-    intro x hx hp
-    simp only [staleStep, StaleP]
-    rw [List.mem_filter]
-    refine ⟨hp, ?_⟩
-    simp only [ne_eq, decide_not, Bool.not_eq_true', decide_eq_false_iff_not, Prod.mk.injEq]
-    intro hn
+    obtain ⟨o, hfo, hsame⟩ := slice_delete_sameBut c ns name c' hstep
+    have hsl : c'.slices = c.slices.filter (fun x => !(x.ns = ns ∧ x.name = name)) := by
+      simp only [stepC, hfo, Option.map, Option.some.injEq] at hstep
+      rw [← hstep]
+      exact (runAll_one_st _ _).2
+    have hne : ∀ x ∈ c'.slices, (x.ns, x.name) ≠ (ns, name) := by
+      intro x hx hn
+      simp only [Prod.mk.injEq] at hn
+      rw [hsl] at hx
+      have := (List.mem_filter.mp hx).2
+      simp [hn.1, hn.2] at this
+    refine ⟨?_, hpcO (by simp) (by simp), slice_delete_sound c ns name c' hstep hs.sound hgood, ?_⟩
+    · apply (slice_delete_inv c ns name c' hstep hs.inv hgood).mono
+      intro x hx hp
+      have hid := hne x hx
+      simp only [staleStep, waitStep, Exempt, StaleP, WaitP]
+      cases hp with
+      | inl h =>
+        left
+        rw [List.mem_filter]
+        exact ⟨h, decide_eq_true hid⟩
+      | inr h =>
+        right
+        unfold WaitP at h
+        obtain ⟨e, he, hex⟩ := List.mem_map.mp h
+        rw [List.mem_map]
+        exact ⟨e, List.mem_filter.mpr ⟨he, decide_eq_true (by rw [hex]; exact hid)⟩, hex⟩
+    · intro x hx pn hp ea hea htg
+      simp only [waitStep] at hp
+      have hp' := List.mem_filter.mp hp
+      have hxc : x ∈ c.slices := by rw [hsl] at hx; exact (List.mem_filter.mp hx).1
+      have hom := List.mem_of_find?_eq_some hfo
+      have ho := List.find?_some hfo
+      simp only [Bool.decide_and, Bool.and_eq_true, decide_eq_true_eq] at ho
+      have hkey : x.key ≠ o.key := by
+        intro hk
+        have := hgood.sliceKeyInj x hxc o hom hk
+        rw [this] at hx
+        exact hne o hx (by simp [ho.1, ho.2])
+      rw [hsame ea.2 x.key hkey]
+      exact hs.reg x hxc pn hp'.1 ea hea htg
+  | svc v =>
+    exact ⟨svc_write_inv c v c' hstep hs.inv hgood.1 hgood.2.2 hgood.2.1, hpcO (by simp) (by simp),
+      svc_write_sound c v c' hstep hgood.2.2 hs.sound,
+      hquiet (step_quiet_resync c _ c' hstep trivial) (by
+        simp only [stepC, Option.some.injEq] at hstep
+        rw [← hstep]; exact (runAll_one_st _ _).2)⟩
+  | delSvc ns name =>
+    refine ⟨svc_delete_inv c ns name c' hstep hs.inv hgood.1 hgood.2, hpcO (by simp) (by simp),
+      svc_delete_sound c ns name c' hstep hs.sound, hquiet (step_quiet_resync c _ c' hstep trivial) ?_⟩
     simp only [stepC] at hstep
-    cases hf : findSlice c.slices ns name with
+    cases hf : findSvc c.svcs ns name with
     | none => rw [hf] at hstep; cases hstep
     | some o =>
       rw [hf] at hstep
       simp only [Option.map, Option.some.injEq] at hstep
-      have hsl : c'.slices = c.slices.filter (fun x => !(x.ns = ns ∧ x.name = name)) := by
-        rw [← hstep]
-        exact (runAll_one_st _ _).2
-      rw [hsl] at hx
-      have := (List.mem_filter.mp hx).2
-      simp [hn.1, hn.2] at this
-  | svc v =>
-    exact ⟨svc_write_inv c v c' hstep hs.inv hgood.1 hgood.2.2 hgood.2.1, hpcO (by simp) (by simp),
-      svc_write_sound c v c' hstep hgood.2.2 hs.sound⟩
-  | delSvc ns name =>
-    exact ⟨svc_delete_inv c ns name c' hstep hs.inv hgood.1 hgood.2, hpcO (by simp) (by simp),
-      svc_delete_sound c ns name c' hstep hs.sound⟩
+      rw [← hstep]; exact (runAll_one_st _ _).2
   | pod v =>
     obtain ⟨hwf, hk, hu, hip, hrest⟩ := hgood
     by_cases hph : v.phase = "F"
@@ -226,12 +371,22 @@ theorem handlers_preserve_inv (c : Ctl) (st : StaleSet) (op : Op) (c' : Ctl)
       | some o =>
         simp only [stepC, hph, if_true, hfo, Option.map, Option.some.injEq] at hstep
         subst hstep
-        have : staleStep c st (.pod v) = st ++ refsOf c v.ns v.name := by simp [staleStep, hph, hfo]
-        rw [this]
-        exact pod_removed_stable c st v.ns v.name v o hfo ⟨rfl, rfl⟩ hs hwf hk hu (hip o hfo)
-    · obtain ⟨hwf1, hk1, hu1, hg⟩ := hrest hph
-      have : staleStep c st (.pod v) = st := by simp [staleStep, hph]
-      rw [this]
+        have h1 : staleStep c st (.pod v) = st ++ refsOf c v.ns v.name := by simp [staleStep, hph, hfo]
+        have h2 : waitStep c st wp (.pod v) = wp := by simp [waitStep, hph]
+        rw [h1, h2]
+        apply pod_removed_stable c st wp v.ns v.name v o hfo ⟨rfl, rfl⟩ hs hwf hk hu
+        cases hip o hfo with
+        | inl h => exact Or.inl h
+        | inr h =>
+          cases h with
+          | inl h => exact Or.inr (Or.inl h)
+          | inr h =>
+            cases h with
+            | inl h => exact Or.inr (Or.inr h)
+            | inr h => exact absurd hph h.1
+    · obtain ⟨hwf1, hk1, hu1, hno, hg⟩ := hrest hph
+      have h1 : staleStep c st (.pod v) = st := by simp [staleStep, hph]
+      rw [h1]
       have hpc' := pod_write_podCache c v c' hph hstep hs.pc hk hk1 hip
       have hst : SameSt { c with pods := upsertBy (fun x => x.ns = v.ns ∧ x.name = v.name) v c.pods } c' := by
         rw [stepC_pod c v hph, Option.some.injEq] at hstep
@@ -244,12 +399,118 @@ theorem handlers_preserve_inv (c : Ctl) (st : StaleSet) (op : Op) (c' : Ctl)
         rw [hst.2] at hsl
         rw [hst.1] at hp
         exact hu1 sl hsl ea hea htg p hp
+      have heip := effIP_eq c v hs.pc hk hk1 hno
+      -- the waiting pairs afterwards: old pairs stay or are replayed, new pairs are registered
+      have hwp : ∀ x ∈ c.slices, WaitP wp x →
+          WaitP (waitStep c st wp (.pod v)) x ∨ (v.ip ≠ "" ∧ setContains c.resync v.ip x.key = true) := by
+        intro x hx hw
+        simp only [waitStep, hph, if_false]
+        cases hfo : findPod c.pods v.ns v.name with
+        | none =>
+          simp only []
+          by_cases hvip : v.ip = ""
+          · rw [if_pos hvip]
+            left
+            unfold WaitP at hw ⊢
+            rw [List.map_append, List.mem_append]
+            exact Or.inl hw
+          · rw [if_neg hvip]
+            exact waitP_clearAt c wp v.ip hwf hs.reg x hx hw
+        | some o => exact waitP_clearAt c wp v.ip hwf hs.reg x hx hw
+      have hreg' : RegOK c' (waitStep c st wp (.pod v)) := by
+        intro x hx pn hp ea hea htg
+        have hxc : x ∈ c.slices := by rw [hst.2] at hx; exact hx
+        apply pod_step_keeps c v c' hph hstep
+        rotate_left
+        · -- registered before the write
+          simp only [waitStep, hph, if_false] at hp
+          cases hfo : findPod c.pods v.ns v.name with
+          | none =>
+            rw [hfo] at hp
+            simp only [] at hp
+            by_cases hvip : v.ip = ""
+            · rw [if_pos hvip] at hp
+              cases List.mem_append.mp hp with
+              | inl h => exact hs.reg x hxc pn h ea hea htg
+              | inr h =>
+                obtain ⟨y, hy, hye⟩ := List.mem_map.mp h
+                have hy' := List.mem_filter.mp hy
+                simp only [decide_eq_true_eq] at hy'
+                simp only [Prod.mk.injEq] at hye
+                have : y = x := hwf.sliceNameInj y hy'.1 x hxc hye.1.1 hye.1.2
+                subst this
+                apply hs.inv.parked y hxc hy'.2.1
+                apply (mem_parkedAddrs c.pods y ea.2).mpr
+                refine ⟨hy'.2.2.1, ea, hea, rfl, v.ns, v.name, ?_, hfo⟩
+                rw [htg, ← hye.2]
+            · rw [if_neg hvip] at hp
+              exact hs.reg x hxc pn (mem_clearAt c wp v.ip _ hp).1 ea hea htg
+          | some o =>
+            rw [hfo] at hp
+            exact hs.reg x hxc pn (mem_clearAt c wp v.ip _ hp).1 ea hea htg
+        · -- and not under the IP the event works with
+          rw [heip]
+          by_cases hvip : v.ip = ""
+          · exact Or.inr hvip
+          · left
+            intro hea2
+            simp only [waitStep, hph, if_false] at hp
+            have hcl : ((x.ns, x.name), pn) ∈ clearAt c wp v.ip := by
+              cases hfo : findPod c.pods v.ns v.name with
+              | none => rw [hfo] at hp; simp only [] at hp; rw [if_neg hvip] at hp; exact hp
+              | some o => rw [hfo] at hp; exact hp
+            cases (mem_clearAt c wp v.ip _ hcl).2 with
+            | inl h => exact hvip h
+            | inr h => exact h ⟨x, hxc, rfl, ea, hea, htg, hea2⟩
       cases hg with
       | inl hg =>
-        exact ⟨pod_write_inv c v c' hph hstep hs.inv hwf1 hnc hnc' hg, hpc', pod_write_sound c v c' hph hstep hs.sound hwf1 hg⟩
+        refine ⟨?_, hpc', pod_write_sound c v c' hph hstep hs.sound hwf1 hg, hreg'⟩
+        apply pod_write_inv c v c' hph hstep hs.inv hwf1 hnc hnc' hg
+        · intro x hx hp
+          cases hp with
+          | inl h => exact Or.inl (Or.inl h)
+          | inr h =>
+            cases hwp x hx h with
+            | inl h1 => exact Or.inl (Or.inr h1)
+            | inr h1 => right; rw [heip]; exact h1
+        · intro hfo hvip x hx hsv hr
+          by_cases hex : Exempt st wp x
+          · cases hex with
+            | inl h => exact Or.inl h
+            | inr h =>
+              cases hwp x hx h with
+              | inl h1 => exact Or.inr h1
+              | inr h1 => exact absurd hvip h1.1
+          · right
+            simp only [waitStep, hph, if_false, hfo, hvip, if_true]
+            unfold WaitP
+            rw [List.map_append, List.mem_append]
+            right
+            rw [List.mem_map]
+            refine ⟨((x.ns, x.name), (v.ns, v.name)), ?_, rfl⟩
+            rw [List.mem_map]
+            exact ⟨x, List.mem_filter.mpr ⟨hx, by simp [hex, hsv, hr]⟩, rfl⟩
       | inr hg =>
-        exact ⟨pod_label_edit_inv c v c' hph hstep hs.inv hwf1 hnc hg.1 hg.2, hpc',
-          pod_label_edit_sound c v c' hph hstep hs.sound hg.1⟩
+        refine ⟨?_, hpc', pod_label_edit_sound c v c' hph hstep hs.sound hwf1 hg.1, hreg'⟩
+        apply (pod_label_edit_inv c v c' hph hstep hs.inv hwf1 hnc hg.1 hg.2).mono
+        intro x hx hp
+        have hxc : x ∈ c.slices := by rw [hst.2] at hx; exact hx
+        cases hp with
+        | inl h => exact Or.inl h
+        | inr h =>
+          cases hwp x hxc h with
+          | inl h1 => exact Or.inr h1
+          | inr h1 =>
+            exfalso
+            -- nothing is registered under the IP of a pod whose label edit is recomputed
+            unfold PodLabelGood at hg
+            cases hfo : findPod c.pods v.ns v.name with
+            | none => rw [hfo] at hg; exact hg.1
+            | some o =>
+              rw [hfo] at hg
+              have hnw := hg.1.2.2.2.2.2.2.1
+              have := h1.2
+              simp [setContains, hnw] at this
   | delPod ns name =>
     obtain ⟨hwf, hk, hu⟩ := hgood
     cases hfo : findPod c.pods ns name with
@@ -257,67 +518,76 @@ theorem handlers_preserve_inv (c : Ctl) (st : StaleSet) (op : Op) (c' : Ctl)
     | some o =>
       simp only [stepC, hfo, Option.map, Option.some.injEq] at hstep
       subst hstep
-      have : staleStep c st (.delPod ns name) = st ++ refsOf c ns name := by simp [staleStep, hfo]
-      rw [this]
+      have h1 : staleStep c st (.delPod ns name) = st ++ refsOf c ns name := by simp [staleStep, hfo]
+      have h2 : waitStep c st wp (.delPod ns name) = wp := rfl
+      rw [h1, h2]
       have ho := List.find?_some hfo
       simp only [Bool.decide_and, Bool.and_eq_true, decide_eq_true_eq] at ho
-      exact pod_removed_stable c st ns name o o hfo ho hs hwf hk hu (Or.inr (Or.inr rfl))
+      exact pod_removed_stable c st wp ns name o o hfo ho hs hwf hk hu (Or.inr (Or.inr rfl))
   | node v =>
     simp only [stepC, Option.some.injEq] at hstep
     subst hstep
-    exact ⟨nodes_change_inv c _ hs.inv (noCachedAddr_of_objects c hs.pc hgood.1) hgood.2, hs.pc.of_eq rfl rfl rfl, hs.sound⟩
+    exact ⟨nodes_change_inv c _ hs.inv (noCachedAddr_of_objects c hs.pc hgood.1) hgood.2, hs.pc.of_eq rfl rfl rfl, hs.sound,
+      hs.reg⟩
   | delNode name =>
     simp only [stepC] at hstep
     split at hstep
     · simp only [Option.some.injEq] at hstep
       subst hstep
-      exact ⟨nodes_change_inv c _ hs.inv (noCachedAddr_of_objects c hs.pc hgood.1) hgood.2, hs.pc.of_eq rfl rfl rfl, hs.sound⟩
+      exact ⟨nodes_change_inv c _ hs.inv (noCachedAddr_of_objects c hs.pc hgood.1) hgood.2, hs.pc.of_eq rfl rfl rfl, hs.sound,
+        hs.reg⟩
     · cases hstep
   | ns v =>
     have hpc' := hpcO (by simp) (by simp)
     rw [ns_write_ctl c v hgood, Option.some.injEq] at hstep
     subst hstep
-    exact ⟨hs.inv.of_nss _, hpc', hs.sound⟩
+    exact ⟨hs.inv.of_nss _, hpc', hs.sound, hs.reg⟩
   | delNs name =>
     have hpc' := hpcO (by simp) (by simp)
     rw [ns_delete_ctl c name c' hgood hstep] at hpc' ⊢
-    exact ⟨hs.inv.of_nss _, hpc', hs.sound⟩
+    exact ⟨hs.inv.of_nss _, hpc', hs.sound, hs.reg⟩
   | hold => exact absurd hgood (fun h => h)
   | release =>
     simp only [stepC, Option.some.injEq] at hstep
     subst hstep
     exact hs
 
-/-- every step of the history is good in the state (and with the stale set) in which it happens -/
-def AllGood : Ctl → StaleSet → List Op → Prop
-  | _, _, [] => True
-  | c, st, o :: r => GoodStep c st o ∧ AllGood ((stepC c o).getD c) (if (stepC c o).isSome then staleStep c st o else st) r
+/-- every step of the history is good in the state (and with the stale and waiting sets) in which it happens -/
+def AllGood : Ctl → StaleSet → WaitSet → List Op → Prop
+  | _, _, _, [] => True
+  | c, st, wp, o :: r => GoodStep c st wp o ∧
+      AllGood ((stepC c o).getD c) (if (stepC c o).isSome then staleStep c st o else st)
+        (if (stepC c o).isSome then waitStep c st wp o else wp) r
 
-/-- the stale set at the end of the history -/
-def staleRun : Ctl → StaleSet → List Op → StaleSet
-  | _, st, [] => st
-  | c, st, o :: r => staleRun ((stepC c o).getD c) (if (stepC c o).isSome then staleStep c st o else st) r
+/-- the stale set and the waiting pairs at the end of the history -/
+def ghostRun : Ctl → StaleSet → WaitSet → List Op → StaleSet × WaitSet
+  | _, st, wp, [] => (st, wp)
+  | c, st, wp, o :: r => ghostRun ((stepC c o).getD c) (if (stepC c o).isSome then staleStep c st o else st)
+      (if (stepC c o).isSome then waitStep c st wp o else wp) r
 
-theorem runC_stable (ops : List Op) (c : Ctl) (st : StaleSet) (hs : Stable c st) (hgood : AllGood c st ops) :
-    Stable (runC c ops) (staleRun c st ops) := by
-  induction ops generalizing c st with
+def staleRun (c : Ctl) (st : StaleSet) (wp : WaitSet) (ops : List Op) : StaleSet := (ghostRun c st wp ops).1
+def waitRun (c : Ctl) (st : StaleSet) (wp : WaitSet) (ops : List Op) : WaitSet := (ghostRun c st wp ops).2
+
+theorem runC_stable (ops : List Op) (c : Ctl) (st : StaleSet) (wp : WaitSet) (hs : Stable c st wp)
+    (hgood : AllGood c st wp ops) : Stable (runC c ops) (ghostRun c st wp ops).1 (ghostRun c st wp ops).2 := by
+  induction ops generalizing c st wp with
   | nil => exact hs
   | cons o r ih =>
-    simp only [runC, staleRun]
+    simp only [runC, ghostRun]
     cases hst : stepC c o with
     | none =>
       simp only [Option.getD, Option.isSome, Bool.false_eq_true, if_false]
       have := hgood.2
       rw [hst] at this
-      exact ih c st hs this
+      exact ih c st wp hs this
     | some c' =>
       simp only [Option.getD, Option.isSome, if_true]
       have := hgood.2
       rw [hst] at this
-      exact ih c' _ (handlers_preserve_inv c st o c' hs hgood.1 hst) this
+      exact ih c' _ _ (handlers_preserve_inv c st wp o c' hs hgood.1 hst) this
 
-theorem allGood_noHold (ops : List Op) (c : Ctl) (st : StaleSet) (h : AllGood c st ops) : NoHold ops := by
-  induction ops generalizing c st with
+theorem allGood_noHold (ops : List Op) (c : Ctl) (st : StaleSet) (wp : WaitSet) (h : AllGood c st wp ops) : NoHold ops := by
+  induction ops generalizing c st wp with
   | nil => intro o ho; cases ho
   | cons o r ih =>
     intro x hx
@@ -327,48 +597,51 @@ theorem allGood_noHold (ops : List Op) (c : Ctl) (st : StaleSet) (h : AllGood c 
       intro hh
       subst hh
       exact h.1
-    | inr hxr => exact ih _ _ h.2 x hxr
+    | inr hxr => exact ih _ _ _ h.2 x hxr
 
 /-- **convergence_any_order.**  For every history (any list of creates, updates and deletes of
     Services, EndpointSlices, Pods, Nodes and Namespaces - hence every interleaving of the per-kind
     streams, every repetition - each write handled to quiescence before the next) whose steps are good,
     the controller started empty ends with caches that are the handler-function of the final stores:
-    `servicesMap` is the Services of the store, every cache entry of a slice that is not stale is
-    `updateEndpointCacheForSlice` of that slice evaluated on the final objects, no other entry exists,
-    every address still without pod is registered in `needResync`, the index holds
+    `servicesMap` is the Services of the store, every cache entry of a slice that is neither stale nor
+    waiting is `updateEndpointCacheForSlice` of that slice evaluated on the final objects, no other entry
+    exists, every address still without pod is registered in `needResync`, the index holds
     `endpointSliceCache.get` of those entries, and `podsByIP` / `ipByPods` hold exactly the running,
     ready pods of the store.  `EntryOK` reads the pod cache, which is itself this function of the Pod
     store; so nothing in the conclusion refers to the order of arrival, and two orders of the same
     history end in the same derived state. -/
-theorem convergence_any_order (ops : List Op) (hgood : AllGood {} [] ops) :
-    InvExcept (run {} ops).c (StaleP (staleRun {} [] ops)) ∧ PodCacheOK (run {} ops).c := by
-  have hn := allGood_noHold ops {} [] hgood
+theorem convergence_any_order (ops : List Op) (hgood : AllGood {} [] [] ops) :
+    InvExcept (run {} ops).c (Exempt (staleRun {} [] [] ops) (waitRun {} [] [] ops)) ∧ PodCacheOK (run {} ops).c := by
+  have hn := allGood_noHold ops {} [] [] hgood
   rw [(run_sync ops {} rfl rfl hn).1]
-  have := runC_stable ops {} [] stable_empty hgood
+  have := runC_stable ops {} [] [] stable_empty hgood
   exact ⟨this.inv, this.pc⟩
 
 /-- the same when every pod delete has been followed by the slice controller's write of the slices
-    that referred to the pod (nothing stale at the end): the full invariant -/
-theorem convergence_any_order_inv (ops : List Op) (hgood : AllGood {} [] ops) (hst : staleRun {} [] ops = []) :
+    that referred to the pod and every pod has got its IP (nothing stale, nothing waiting at the end): the full
+    invariant -/
+theorem convergence_any_order_inv (ops : List Op) (hgood : AllGood {} [] [] ops)
+    (hst : staleRun {} [] [] ops = []) (hwt : waitRun {} [] [] ops = []) :
     Inv (run {} ops).c := by
   have := (convergence_any_order ops hgood).1
-  rw [hst] at this
-  exact this.mono (fun _ _ h => by simp [StaleP] at h)
+  rw [hst, hwt] at this
+  exact this.mono (fun _ _ h => by simp [Exempt, StaleP, WaitP] at h)
 
 /-- **needResync_no_leak.**  After any good history, with the queue drained, `needResync` is exactly the
-    set of endpoints still waiting for a pod: an address is registered under a slice key if and only
-    if that slice is in the store and has the address on an endpoint whose targetRef pod is not in
-    the store.  Nothing stays behind for a pod that has arrived, for a removed address or for a
-    deleted slice.  (For a slice that is stale the "if" direction holds after its next write.) -/
-theorem needResync_no_leak (ops : List Op) (hgood : AllGood {} [] ops) :
+    set of endpoints still waiting for a pod: an address is registered under a slice key only if that slice
+    is in the store and has the address on an endpoint whose targetRef pod is not in the store or is there
+    without IP yet, and every address of a slice (neither stale nor waiting) whose targetRef pod is not in the
+    store is registered.  Nothing stays behind for a pod that has arrived with its IP, for a removed address or
+    for a deleted slice. -/
+theorem needResync_no_leak (ops : List Op) (hgood : AllGood {} [] [] ops) :
     (∀ a k, setContains (run {} ops).c.resync a k = true →
-      ∃ sl ∈ (run {} ops).c.slices, sl.key = k ∧ a ∈ parkedAddrs (run {} ops).c.pods sl) ∧
-    (∀ sl ∈ (run {} ops).c.slices, ¬ StaleP (staleRun {} [] ops) sl → ∀ a ∈ parkedAddrs (run {} ops).c.pods sl,
-      setContains (run {} ops).c.resync a sl.key = true) := by
-  have hn := allGood_noHold ops {} [] hgood
+      ∃ sl ∈ (run {} ops).c.slices, sl.key = k ∧ a ∈ parkedAddrs (visPods (run {} ops).c.pods) sl) ∧
+    (∀ sl ∈ (run {} ops).c.slices, ¬ Exempt (staleRun {} [] [] ops) (waitRun {} [] [] ops) sl →
+      ∀ a ∈ parkedAddrs (run {} ops).c.pods sl, setContains (run {} ops).c.resync a sl.key = true) := by
+  have hn := allGood_noHold ops {} [] [] hgood
   refine ⟨?_, ?_⟩
   · rw [(run_sync ops {} rfl rfl hn).1]
-    exact (runC_stable ops {} [] stable_empty hgood).sound
+    exact (runC_stable ops {} [] [] stable_empty hgood).sound
   · intro sl hsl hns a ha
     exact (convergence_any_order ops hgood).1.parked sl hsl hns a ha
 
